@@ -125,6 +125,7 @@ BATTERIES['Functions'] = [
                           'enc_v (@M@.Poly2DOffset_vector c3 off x) ++ enc_s (@M@.Poly2DOffset_call c3 off x) ++ enc_v (@M@.Poly2DOffset_deriv c3 off x) ++ enc_m (@M@.Poly2DOffset_hess c3 off x)) [va; vb; vc])'),
   ('RangesFunction', 'concat (map (fun x => concat (map (fun rg => enc_s (@M@.RangesFunction_call rg [fobjA 1; fobjA 2; fobjA (-1)] x) ++ enc_v (@M@.RangesFunction_deriv rg [fobjA 1; fobjA 2; fobjA (-1)] x)) '
                      '[[(0%nat, 3%nat)]; [(0%nat, 1%nat); (1%nat, 3%nat)]; [(0%nat, 1%nat); (1%nat, 2%nat); (2%nat, 3%nat)]; [(0%nat, 2%nat); (2%nat, 2%nat); (2%nat, 3%nat)]; []])) [va; vb; vc])'),
+  ('ADevice', 'concat (map (fun x => concat (map (fun p => enc_s (@M@.ADevice_cost (fobjA 1) x p) ++ enc_v (@M@.ADevice_deriv (fobjA 2) x p) ++ enc_m (@M@.ADevice_hess (fobjA (-1)) x p)) [va; vb; [0; 0; 0]])) [va; vb; vc])'),
 ]
 BND = '[(0, 2); (1, 1); (-1, 3)]'
 BATTERIES['Classes'] = [
